@@ -1,21 +1,36 @@
 package c10
 
-// C10 correspondence + monitors on the real app:
-//   op   : disp <kind> <method> <0x-methodId> <writer 0/1> <disabled entries, comma separated | ->
+// C10 correspondence + monitors on the real app.
+//
+// Phase 1 (dispatch, stateless per op):
+//   op   : disp <kind> <method> <0x-methodId> <writer 0/1> <addr.String()> <disabled entries, comma separated | ->
 //   impl : ran | blocked:readonly | blocked:disabled      (from the error the precompile frame returned, traced)
-//   model: the Lean dispatcher `run` over the regenerated tables.
-// Monitors: (1) a blocked call leaves every Cosmos store unchanged; (2) a governance entry equal (in any letter case) to
-// the precompile address or address/methodId blocks the call (set through the REAL MsgUpdateSwitchParams handler);
-// (3) STATICCALL / DELEGATECALL / CALLCODE into a state-changing method changes nothing; (4) portfolios of non-callers
-// (balance + rewards, shares, allowances granted, queued withdrawals) are never reduced by a call of somebody else,
-// except transferFromShares within the allowance, which drops by exactly the moved shares; (5) a contract entered through
-// STATICCALL that CALLs a state-changing method must not change state (inherited static context).
+//   model: the Lean dispatcher `runGen` (regenerated step order + regenerated CheckContractAddressIsDisabled program).
+// Phase 2 (histories, stateful per sequence; one cache context per sequence, every op a real signed MsgEthereumTx):
+//   op   : set shares|bal|allow|pool ...   (initial real state handed to the model)
+//          h <kind> <caller> <origin> <addr> <mid> <entries|-> <method> <decimal args>
+//   impl : <status> al=<allowance owner->spender> sa=<shares A> sb=<shares B>   |  <status> sa=..  |  <status> pool=id:sender:amount,..
+//   model: `runGen` applied to the model world (regenerated closures of approveShares / transferShares /
+//          transferFromShares and the regenerated decrementAllowance statement list).
+// Monitors (property stated directly on real state):
+//   (1) a blocked call leaves every Cosmos store unchanged; (2) a governance list that contains — anywhere, among any
+//   number of other entries — the precompile address or address/methodId in any letter case blocks the call (lists are
+//   set through the REAL MsgUpdateSwitchParams handler; the expectation is computed from the property text, not from
+//   the code); (3) STATICCALL / DELEGATECALL / CALLCODE into a state-changing method changes nothing; (4) portfolios of
+//   every account that is not the direct caller (the tx origin included: balance + rewards, shares, allowances granted,
+//   queued withdrawals) are never reduced by a call of somebody else, except transferFromShares within the allowance,
+//   which drops by exactly the moved shares — per step and over the whole history since the last approval (approved −
+//   Σ moved = allowance now, for every approved value incl. 2^256−1); (5) a contract entered through STATICCALL that
+//   CALLs a state-changing method must not change state (inherited static context).
 
 import (
 	"encoding/hex"
 	"fmt"
 	"math/big"
 	"math/rand"
+	"os"
+	"path/filepath"
+	"regexp"
 	"sort"
 	"strings"
 	"testing"
@@ -45,14 +60,18 @@ type env struct {
 	s        *hx.Suite
 	signer   *helpers.Signer
 	victim   *helpers.Signer
+	other    common.Address
 	x, y     common.Address // contracts: x calls the precompile (or y); y is the nested frame
 	vals     []string
 	staking  common.Address
 	cross    common.Address
 	xTx, vTx []uint64 // queued withdrawals of x and of the victim
+	gov      string
 }
 
 var cosmosStores = []string{"bank", "staking", "distribution", "eth", "erc20", "slashing", "mint", "bsc", "tron", "transfer", "crosschain"}
+
+var maxU256 = new(big.Int).Sub(new(big.Int).Lsh(big.NewInt(1), 256), big.NewInt(1))
 
 func (e *env) dump(ctx sdk.Context) map[string]string {
 	res := map[string]string{}
@@ -69,8 +88,10 @@ func (e *env) dump(ctx sdk.Context) map[string]string {
 func setup(t *testing.T) *env {
 	s := hx.NewSuite(t, 2)
 	e := &env{s: s, staking: fxstakingtypes.GetAddress(), cross: crosschaintypes.GetAddress()}
+	e.gov = authtypes.NewModuleAddress(govtypes.ModuleName).String()
 	e.signer = s.AddTestSigner(100_000)
 	e.victim = s.AddTestSigner(100_000)
+	e.other = helpers.GenHexAddress()
 	e.x = common.BytesToAddress([]byte{0xC1, 0x0A, 0, 0, 0, 0, 0, 0, 0, 0, 0, 0, 0, 0, 0, 0, 0, 0, 0, 1})
 	e.y = common.BytesToAddress([]byte{0xC1, 0x0A, 0, 0, 0, 0, 0, 0, 0, 0, 0, 0, 0, 0, 0, 0, 0, 0, 0, 2})
 	for _, v := range s.ValAddr {
@@ -96,6 +117,7 @@ func setup(t *testing.T) *env {
 		delegate(a.Bytes(), s.ValAddr[1], big18(1000))
 	}
 	delegate(e.victim.AccAddress(), s.ValAddr[0], big18(5000))
+	delegate(e.signer.AccAddress(), s.ValAddr[0], big18(700))
 	pool := func(who sdk.AccAddress) uint64 {
 		id, err := s.App.EthKeeper.AddToOutgoingPool(s.Ctx, who, helpers.GenExternalAddr(ethtypes.ModuleName),
 			sdk.NewCoin(fxtypes.DefaultDenom, sdkmath.NewInt(1000)), sdk.NewCoin(fxtypes.DefaultDenom, sdkmath.NewInt(10)))
@@ -104,36 +126,49 @@ func setup(t *testing.T) *env {
 		}
 		return id
 	}
-	e.xTx = []uint64{pool(e.x.Bytes()), pool(e.x.Bytes())}
-	e.vTx = []uint64{pool(e.victim.AccAddress()), pool(e.victim.AccAddress())}
+	e.xTx = []uint64{pool(e.x.Bytes()), pool(e.x.Bytes()), pool(e.x.Bytes())}
+	e.vTx = []uint64{pool(e.victim.AccAddress()), pool(e.victim.AccAddress()), pool(e.victim.AccAddress())}
 	s.Commit()
 	s.Commit()
 	return e
 }
 
+// ---------------------------------------------------------------------------------------------------------
+// portfolios
+
 type portfolio struct {
 	funds  *big.Int // balance + pending rewards
-	shares *big.Int
-	allowX *big.Int
-	allowY *big.Int
-	pool   map[uint64]string // id -> sender|amount+fee
+	shares *big.Int // delegation with validator 0
+	allow  []*big.Int
+	pool   map[uint64]string // id -> amount+fee
 }
 
-func (e *env) portfolioOf(ctx sdk.Context, who common.Address) portfolio {
+func (e *env) sharesOf(ctx sdk.Context, who common.Address) *big.Int {
+	if d, err := e.s.App.StakingKeeper.GetDelegation(ctx, who.Bytes(), e.s.ValAddr[0]); err == nil {
+		return d.Shares.TruncateInt().BigInt()
+	}
+	return new(big.Int)
+}
+
+func (e *env) allowance(ctx sdk.Context, owner, spender common.Address) *big.Int {
+	return e.s.App.StakingKeeper.GetAllowance(ctx, e.s.ValAddr[0], owner.Bytes(), spender.Bytes())
+}
+
+func (e *env) portfolioOf(ctx sdk.Context, who common.Address, spenders []common.Address) portfolio {
 	cctx, _ := ctx.CacheContext()
 	app := e.s.App
 	p := portfolio{pool: map[uint64]string{}}
 	p.funds = app.BankKeeper.GetBalance(cctx, who.Bytes(), fxtypes.DefaultDenom).Amount.BigInt()
-	p.shares = new(big.Int)
-	if d, err := app.StakingKeeper.GetDelegation(cctx, who.Bytes(), e.s.ValAddr[0]); err == nil {
-		p.shares = d.Shares.TruncateInt().BigInt()
-		q := distrkeeper.NewQuerier(app.DistrKeeper)
-		if r, err := q.DelegationRewards(cctx, &distrtypes.QueryDelegationRewardsRequest{DelegatorAddress: sdk.AccAddress(who.Bytes()).String(), ValidatorAddress: e.vals[0]}); err == nil {
+	p.shares = e.sharesOf(cctx, who)
+	q := distrkeeper.NewQuerier(app.DistrKeeper)
+	for _, v := range e.vals {
+		if r, err := q.DelegationRewards(cctx, &distrtypes.QueryDelegationRewardsRequest{DelegatorAddress: sdk.AccAddress(who.Bytes()).String(), ValidatorAddress: v}); err == nil {
 			p.funds = new(big.Int).Add(p.funds, r.Rewards.AmountOf(fxtypes.DefaultDenom).TruncateInt().BigInt())
 		}
 	}
-	p.allowX = app.StakingKeeper.GetAllowance(cctx, e.s.ValAddr[0], who.Bytes(), e.x.Bytes())
-	p.allowY = app.StakingKeeper.GetAllowance(cctx, e.s.ValAddr[0], who.Bytes(), e.y.Bytes())
+	for _, sp := range spenders {
+		p.allow = append(p.allow, e.allowance(cctx, who, sp))
+	}
 	for _, tx := range app.EthKeeper.GetUnbatchedTransactions(cctx) {
 		if tx.Sender == sdk.AccAddress(who.Bytes()).String() {
 			p.pool[tx.Id] = tx.Token.Amount.Add(tx.Fee.Amount).String()
@@ -141,6 +176,125 @@ func (e *env) portfolioOf(ctx sdk.Context, who common.Address) portfolio {
 	}
 	return p
 }
+
+// ---------------------------------------------------------------------------------------------------------
+// governance switch lists
+
+type sw struct {
+	class   string
+	entries []string
+}
+
+// shouldBlock states the property: some entry, in any letter case, is the address or address/methodId
+func shouldBlock(entries []string, addr common.Address, mid string) bool {
+	a := strings.ToLower(addr.Hex())
+	for _, en := range entries {
+		l := strings.ToLower(en)
+		if l == a || l == a+"/"+strings.ToLower(mid) {
+			return true
+		}
+	}
+	return false
+}
+
+func dedup(xs []string) []string {
+	seen := map[string]bool{}
+	var out []string
+	for _, x := range xs {
+		if !seen[x] && !strings.ContainsAny(x, ", \t") {
+			seen[x] = true
+			out = append(out, x)
+		}
+	}
+	return out
+}
+
+func switchLists(rng *rand.Rand, to common.Address, mid string, otherAddr common.Address, otherMids []string, nRandom int) []sw {
+	addrLower := strings.ToLower(to.Hex())
+	mixed := []byte(addrLower + "/" + mid)
+	for i := range mixed {
+		if rng.Intn(2) == 0 && mixed[i] >= 'a' && mixed[i] <= 'f' {
+			mixed[i] -= 32
+		}
+	}
+	om := func(i int) string { return addrLower + "/" + otherMids[i%len(otherMids)] }
+	oa := strings.ToLower(otherAddr.Hex())
+	up := "0X" + strings.ToUpper(addrLower[2:])
+	sws := []sw{
+		{"none", nil},
+		{"addr-lower", []string{addrLower}},
+		{"addr-checksum", []string{to.Hex()}},
+		{"addr-upper", []string{up}},
+		{"addr-method", []string{addrLower + "/" + mid}},
+		{"addr-method-upper", []string{up + "/" + strings.ToUpper(mid)}},
+		{"addr-method-mixed", []string{string(mixed)}},
+		{"other-method", []string{addrLower + "/deadbeef"}},
+		{"other-addr", []string{oa}},
+		{"no-0x", []string{addrLower[2:]}},
+		{"addr-method-0x", []string{addrLower + "/0x" + mid}},
+		{"many", []string{oa + "/" + mid, "junk", to.Hex() + "/" + strings.ToUpper(mid)}},
+		// several entries for ONE precompile address: the matching one is not the first
+		{"m:othermethod,method", []string{om(0), addrLower + "/" + mid}},
+		{"m:method,othermethod", []string{addrLower + "/" + mid, om(0)}},
+		{"m:othermethod,addr", []string{om(0), addrLower}},
+		{"m:othermethod,othermethod,method", []string{om(0), om(1), addrLower + "/" + mid}},
+		{"m:othermethod,otheraddr,METHOD", []string{om(1), oa, up + "/" + strings.ToUpper(mid)}},
+		{"m:othermethod,othermethod", []string{om(0), om(1)}},
+		{"m:otheraddr,othermethod,junk", []string{oa, om(2), "junk/" + mid}},
+		{"m:prefix,suffix", []string{addrLower + "/", addrLower + "/" + mid + "00", addrLower + "0", "/" + mid}},
+	}
+	poolE := []string{addrLower, up, addrLower + "/" + mid, string(mixed), om(0), om(1), om(2), om(3), oa, oa + "/" + mid, "junk", "",
+		addrLower + "/", addrLower + "/" + mid + "00", addrLower[:len(addrLower)-1], mid, "0x/" + mid}
+	for i := 0; i < nRandom; i++ {
+		k := 2 + rng.Intn(6)
+		var l []string
+		// biased: start with non-matching entries of the same address, put candidates later
+		for j := 0; j < k; j++ {
+			if j < k/2 {
+				l = append(l, poolE[4+rng.Intn(4)])
+			} else {
+				l = append(l, poolE[rng.Intn(len(poolE))])
+			}
+		}
+		if rng.Intn(3) == 0 {
+			rng.Shuffle(len(l), func(a, b int) { l[a], l[b] = l[b], l[a] })
+		}
+		l = dedup(l)
+		sws = append(sws, sw{fmt.Sprintf("rand%d", len(l)), l})
+	}
+	for i := range sws {
+		sws[i].entries = dedup(sws[i].entries)
+	}
+	return sws
+}
+
+func (e *env) setSwitch(t *testing.T, ctx sdk.Context, entries []string) bool {
+	if entries == nil {
+		return true
+	}
+	msg := &fxgovtypes.MsgUpdateSwitchParams{Authority: e.gov, Params: fxgovtypes.SwitchParams{DisablePrecompiles: entries}}
+	if _, err := e.s.App.MsgServiceRouter().Handler(msg)(ctx, msg); err != nil {
+		return false
+	}
+	return true
+}
+
+func entStr(entries []string) string {
+	if len(entries) == 0 {
+		return "-"
+	}
+	var out []string
+	for _, x := range entries {
+		if x == "" {
+			x = " " // not equal to any address; keeps the position
+		}
+		out = append(out, x)
+	}
+	return strings.Join(out, ",")
+}
+
+// ---------------------------------------------------------------------------------------------------------
+// phase 1: dispatch
 
 type callSpec struct {
 	method string
@@ -177,6 +331,7 @@ func (e *env) calls(rng *rand.Rand, victim common.Address) []callSpec {
 		mk(e.staking, true, nil, "transferShares", v0, victim, amt(10)),
 		mk(e.staking, true, nil, "transferFromShares", v0, victim, e.x, tfs),
 		mk(e.staking, true, nil, "transferFromShares", v0, victim, victim, tfs),
+		mk(e.staking, true, nil, "transferFromShares", v0, e.signer.Address(), e.x, tfs), // from = tx origin
 		mk(e.staking, false, nil, "delegation", v0, victim),
 		mk(e.staking, false, nil, "allowanceShares", v0, victim, e.x),
 		mk(e.cross, true, big.NewInt(1010), "crossChain", common.Address{}, ext, big.NewInt(1000), big.NewInt(10), fxtypes.MustStrToByte32(ethtypes.ModuleName), ""),
@@ -188,8 +343,35 @@ func (e *env) calls(rng *rand.Rand, victim common.Address) []callSpec {
 		mk(e.cross, true, nil, "executeClaim", ethtypes.ModuleName, big.NewInt(424242)),
 		mk(e.cross, false, nil, "hasOracle", ethtypes.ModuleName, victim),
 	}
-	list[6].moved, list[7].moved = tfs, tfs
+	list[6].moved, list[7].moved, list[8].moved = tfs, tfs, tfs
 	return list
+}
+
+func methodIds(to common.Address, staking common.Address) []string {
+	ab := crosschaintypes.GetABI()
+	if to == staking {
+		ab = fxstakingtypes.GetABI()
+	}
+	var names []string
+	for n := range ab.Methods {
+		names = append(names, n)
+	}
+	sort.Strings(names)
+	var ids []string
+	for _, n := range names {
+		ids = append(ids, hex.EncodeToString(ab.Methods[n].ID))
+	}
+	return ids
+}
+
+func otherMids(all []string, mid string) []string {
+	var out []string
+	for _, m := range all {
+		if m != mid {
+			out = append(out, m)
+		}
+	}
+	return out
 }
 
 func errKind(s string) string {
@@ -205,68 +387,92 @@ func errKind(s string) string {
 	}
 }
 
-func TestC10(t *testing.T) {
-	rng := rand.New(rand.NewSource(hx.Seed()))
-	out := hx.NewOut()
-	defer out.Close("every method of both precompiles (12 state-changing incl. third-party-argument variants, 4 views) x CALL/STATICCALL/DELEGATECALL/CALLCODE x governance switch settings set through the real MsgUpdateSwitchParams handler (none, address lower/upper/mixed, address/methodId lower/upper, other method, other address, near misses) x allowance 0/small/large; nested STATICCALL->CALL; portfolios of the third party before/after. non-trivial = distinct (method, kind, switch class, outcome)")
-	e := setup(t)
+// comparePortfolios: account `who` was NOT the direct caller of the op described by desc.
+// tfsFrom: the op was transferFromShares(from = who, shares = moved) by spender number spIdx (index into spenders), else moved == nil.
+func comparePortfolios(out *hx.Out, who string, pv, pa portfolio, moved *big.Int, spIdx int, succeeded bool, desc string) {
+	if pa.funds.Cmp(pv.funds) < 0 {
+		violate(out, fmt.Sprintf("funds of a non-caller (%s) reduced by %s (%s -> %s)", who, desc, pv.funds, pa.funds))
+	}
+	drop := new(big.Int).Sub(pv.shares, pa.shares)
+	if drop.Sign() > 0 {
+		if moved == nil || drop.Cmp(pv.allow[spIdx]) > 0 || drop.Cmp(moved) > 0 {
+			violate(out, fmt.Sprintf("shares of a non-caller (%s) reduced by %s beyond what it allowed: allowance before %s, requested %v: %s", who, drop, pv.allow[spIdx], moved, desc))
+		}
+	}
+	for i := range pv.allow {
+		ad := new(big.Int).Sub(pv.allow[i], pa.allow[i])
+		switch {
+		case moved != nil && i == spIdx && succeeded:
+			if ad.Cmp(moved) != 0 {
+				violate(out, fmt.Sprintf("allowance granted by a non-caller (%s) not reduced by exactly the amount moved: allowance before %s after %s, moved %s: %s", who, pv.allow[i], pa.allow[i], moved, desc))
+			}
+			if moved.Cmp(pv.allow[i]) > 0 {
+				violate(out, fmt.Sprintf("more than the allowance moved from a non-caller (%s): allowance before %s, moved %s: %s", who, pv.allow[i], moved, desc))
+			}
+		case ad.Sign() != 0:
+			violate(out, fmt.Sprintf("allowance granted by a non-caller (%s) changed without a transfer by that spender (%s -> %s): %s", who, pv.allow[i], pa.allow[i], desc))
+		}
+	}
+	var ids []int
+	for id := range pv.pool {
+		ids = append(ids, int(id))
+	}
+	sort.Ints(ids)
+	for _, id := range ids {
+		av, ok := pa.pool[uint64(id)]
+		if !ok {
+			violate(out, fmt.Sprintf("queued withdrawal %d of a non-caller (%s) cancelled by %s", id, who, desc))
+		} else if b, _ := new(big.Int).SetString(pv.pool[uint64(id)], 10); b != nil {
+			a2, _ := new(big.Int).SetString(av, 10)
+			if a2.Cmp(b) < 0 {
+				violate(out, fmt.Sprintf("queued withdrawal %d of a non-caller (%s) reduced by %s", id, who, desc))
+			}
+		}
+	}
+}
+
+func phaseDispatch(t *testing.T, e *env, rng *rand.Rand, out *hx.Out) {
 	app := e.s.App
-	gov := authtypes.NewModuleAddress(govtypes.ModuleName).String()
 	victim := e.victim.Address()
+	origin := e.signer.Address()
 	warm := []common.Address{e.staking, e.cross}
-	rounds := hx.N(6, 60)
+	spenders := []common.Address{e.x, e.y}
+	rounds := hx.N(4, 40)
 	for r := 0; r < rounds; r++ {
 		out.Reset()
 		for ci, cs := range e.calls(rng, victim) {
 			mid := hex.EncodeToString(cs.data[:4])
-			addrLower := strings.ToLower(cs.to.Hex())
 			otherAddr := e.staking
 			if cs.to == e.staking {
 				otherAddr = e.cross
 			}
-			type sw struct {
-				class   string
-				entries []string
-				match   bool
+			tfsFrom := victim
+			if ci == 8 {
+				tfsFrom = origin
 			}
-			mixed := []byte(addrLower)
-			for i := range mixed {
-				if rng.Intn(2) == 0 && mixed[i] >= 'a' && mixed[i] <= 'f' {
-					mixed[i] -= 32
-				}
-			}
-			sws := []sw{
-				{"none", nil, false},
-				{"addr-lower", []string{addrLower}, true},
-				{"addr-checksum", []string{cs.to.Hex()}, true},
-				{"addr-upper", []string{"0X" + strings.ToUpper(addrLower[2:])}, true},
-				{"addr-mixed", []string{string(mixed)}, true},
-				{"addr-method", []string{addrLower + "/" + mid}, true},
-				{"addr-method-upper", []string{strings.ToUpper(addrLower+"/"+mid)[:2] + strings.ToUpper(addrLower + "/" + mid)[2:]}, true},
-				{"other-method", []string{addrLower + "/deadbeef"}, false},
-				{"other-addr", []string{strings.ToLower(otherAddr.Hex())}, false},
-				{"no-0x", []string{addrLower[2:]}, false},
-				{"addr-method-0x", []string{addrLower + "/0x" + mid}, false},
-				{"many", []string{strings.ToLower(otherAddr.Hex()) + "/" + mid, "junk", cs.to.Hex() + "/" + strings.ToUpper(mid)}, true},
-			}
+			sws := switchLists(rng, cs.to, mid, otherAddr, otherMids(methodIds(cs.to, e.staking), mid), hx.N(4, 12))
 			for _, kind := range []evmx.Kind{evmx.KCall, evmx.KStatic, evmx.KDelegate, evmx.KCallCode} {
 				for _, w := range sws {
-					if w.class != "none" && kind != evmx.KCall && rng.Intn(3) != 0 {
+					if w.class != "none" && kind != evmx.KCall && rng.Intn(4) != 0 {
 						continue
 					}
-					for _, allowance := range []int64{0, 3, 1_000_000} {
-						if cs.moved == nil && allowance != 0 {
-							continue
-						}
+					var allowances []*big.Int
+					if cs.moved == nil {
+						allowances = []*big.Int{nil}
+					} else if w.class == "none" && kind == evmx.KCall {
+						allowances = []*big.Int{nil, big.NewInt(3e15), new(big.Int).Sub(cs.moved, big.NewInt(1)), cs.moved, new(big.Int).Add(cs.moved, big.NewInt(1)),
+							new(big.Int).Mul(big.NewInt(1_000_000), big.NewInt(1e15)), maxU256, new(big.Int).Sub(maxU256, big.NewInt(1))}
+					} else {
+						allowances = []*big.Int{nil, maxU256}
+					}
+					for _, allowance := range allowances {
 						cctx, _ := e.s.Ctx.CacheContext()
-						if allowance > 0 {
-							app.StakingKeeper.SetAllowance(cctx, e.s.ValAddr[0], victim.Bytes(), e.x.Bytes(), new(big.Int).Mul(big.NewInt(allowance), big.NewInt(1e15)))
+						if allowance != nil {
+							app.StakingKeeper.SetAllowance(cctx, e.s.ValAddr[0], tfsFrom.Bytes(), e.x.Bytes(), allowance)
 						}
-						if w.entries != nil {
-							msg := &fxgovtypes.MsgUpdateSwitchParams{Authority: gov, Params: fxgovtypes.SwitchParams{DisablePrecompiles: w.entries}}
-							if _, err := app.MsgServiceRouter().Handler(msg)(cctx, msg); err != nil {
-								t.Fatalf("switch params: %v", err)
-							}
+						if !e.setSwitch(t, cctx, w.entries) {
+							out.Count("switch-list-rejected")
+							continue
 						}
 						nd := &evmx.Node{Op: "pre", ID: 1, Kind: kind, To: cs.to, Data: cs.data, Swallow: true}
 						if kind.HasValue() {
@@ -276,7 +482,8 @@ func TestC10(t *testing.T) {
 							t.Fatal(err)
 						}
 						before := e.dump(cctx)
-						pv := e.portfolioOf(cctx, victim)
+						pv := e.portfolioOf(cctx, victim, spenders)
+						po := e.portfolioOf(cctx, origin, spenders)
 						tx, err := evmx.SignedTx(cctx, app, e.signer, e.x, nil, nil, 3_000_000, warm)
 						if err != nil {
 							t.Fatal(err)
@@ -284,68 +491,55 @@ func TestC10(t *testing.T) {
 						tr := evmx.NewTracer()
 						var res *evmtypes.MsgEthereumTxResponse
 						if pr := hx.Try(func() error { res, err = evmx.SendTraced(cctx, app, tx, tr); return nil }); pr != "ok" {
-							out.Violate(fmt.Sprintf("precompile call panicked (%s): method=%s kind=%s switch=%s", pr, cs.method, kind, w.class))
+							violate(out, fmt.Sprintf("precompile call panicked (%s): method=%s kind=%s switch=%s", pr, cs.method, kind, w.class))
 							continue
 						}
 						if err != nil || res.Failed() || len(tr.Frames) < 2 {
 							t.Fatalf("unexpected outer failure: %v %v", err, res)
 						}
 						obs := errKind(tr.Frames[1].Err)
+						succeeded := tr.Frames[1].Err == ""
 						after := e.dump(cctx)
-						pa := e.portfolioOf(cctx, victim)
+						pa := e.portfolioOf(cctx, victim, spenders)
+						poa := e.portfolioOf(cctx, origin, spenders)
 						changed := hx.DiffDump(before, after)
 						wr := 0
 						if cs.writer {
 							wr = 1
 						}
-						ent := "-"
-						if len(w.entries) > 0 {
-							ent = strings.Join(w.entries, ",")
-						}
-						out.Emit(fmt.Sprintf("disp %s %s %s %d %s %s", kind, cs.method, mid, wr, strings.ToLower(cs.to.Hex()), ent), obs)
+						ent := entStr(w.entries)
+						out.Emit(fmt.Sprintf("disp %s %s %s %d %s %s", kind, cs.method, mid, wr, cs.to.Hex(), ent), obs)
 						out.Count(fmt.Sprintf("%s:%s", kind, obs))
-						out.Nontrivial(fmt.Sprintf("%s|%d|%s|%s|%s|%v", cs.method, ci, kind, w.class, obs, tr.Frames[1].Err == ""))
+						match := shouldBlock(w.entries, cs.to, mid)
+						swc := w.class
+						if strings.HasPrefix(swc, "rand") {
+							swc = fmt.Sprintf("rand:match=%v", match)
+							out.Count(fmt.Sprintf("switch:entries=%d:match=%v", len(w.entries), match))
+						}
+						out.Nontrivial(fmt.Sprintf("%s|%d|%s|%s|%s|%v", cs.method, ci, kind, swc, obs, succeeded))
 						desc := fmt.Sprintf("method=%s kind=%s switch=%s", cs.method, kind, w.class)
 						if obs != "ran" && len(changed) > 0 {
-							out.Violate("blocked precompile call changed Cosmos stores " + fmt.Sprint(changed) + " " + desc)
+							violate(out, "blocked precompile call changed Cosmos stores "+fmt.Sprint(changed)+" "+desc)
 						}
-						if w.match && obs != "blocked:disabled" && !(obs == "blocked:readonly") {
-							out.Violate("disabled precompile executed: " + desc + " entries=" + ent)
+						if match && obs != "blocked:disabled" && obs != "blocked:readonly" {
+							violate(out, fmt.Sprintf("disabled precompile executed: %s entries=%s (%d entries, the matching one is number %d)", desc, ent, len(w.entries), firstMatch(w.entries, cs.to, mid)))
 						}
 						if kind != evmx.KCall && cs.writer && len(changed) > 0 {
-							out.Violate("state-changing method changed state through " + kind.String() + ": " + desc)
+							violate(out, "state-changing method changed state through "+kind.String()+": "+desc)
 						}
-						// third-party portfolio
-						if pa.funds.Cmp(pv.funds) < 0 {
-							out.Violate(fmt.Sprintf("funds of a non-caller reduced by %s (%s -> %s)", desc, pv.funds, pa.funds))
+						// third-party portfolios: the victim and the tx origin (neither is the direct caller x)
+						var mv, mo *big.Int
+						if cs.moved != nil && tfsFrom == victim {
+							mv = cs.moved
 						}
-						drop := new(big.Int).Sub(pv.shares, pa.shares)
-						if drop.Sign() > 0 {
-							ad := new(big.Int).Sub(pv.allowX, pa.allowX)
-							if cs.moved == nil || drop.Cmp(pv.allowX) > 0 || ad.Cmp(drop) != 0 {
-								out.Violate(fmt.Sprintf("shares of a non-caller reduced by %s: moved %s allowance before %s after %s %s", drop, drop, pv.allowX, pa.allowX, desc))
-							}
-						} else if cs.moved != nil && pa.allowY.Cmp(pv.allowY) == 0 && new(big.Int).Sub(pv.allowX, pa.allowX).Cmp(cs.moved) == 0 && cs.moved.Cmp(pv.allowX) <= 0 {
-							// transferFromShares(from = to = third party): allowance consumed by exactly the moved shares, shares not reduced
-						} else if pa.allowX.Cmp(pv.allowX) != 0 || pa.allowY.Cmp(pv.allowY) != 0 {
-							out.Violate("allowance granted by a non-caller changed without a transfer: " + desc)
+						if cs.moved != nil && tfsFrom == origin {
+							mo = cs.moved
 						}
-						var ids []int
-						for id := range pv.pool {
-							ids = append(ids, int(id))
+						if allowance != nil {
+							out.Count("dispatch:tfs-allowance:" + allowanceClass(allowance, cs.moved))
 						}
-						sort.Ints(ids)
-						for _, id := range ids {
-							av, ok := pa.pool[uint64(id)]
-							if !ok {
-								out.Violate(fmt.Sprintf("queued withdrawal %d of a non-caller cancelled by %s", id, desc))
-							} else if b, _ := new(big.Int).SetString(pv.pool[uint64(id)], 10); b != nil {
-								a2, _ := new(big.Int).SetString(av, 10)
-								if a2.Cmp(b) < 0 {
-									out.Violate(fmt.Sprintf("queued withdrawal %d of a non-caller reduced by %s", id, desc))
-								}
-							}
-						}
+						comparePortfolios(out, "third party", pv, pa, mv, 0, succeeded, desc)
+						comparePortfolios(out, "tx origin", po, poa, mo, 0, succeeded, desc)
 					}
 				}
 			}
@@ -374,5 +568,639 @@ func TestC10(t *testing.T) {
 				}
 			}
 		}
+	}
+}
+
+// violate records a monitor violation, at most 3 per class (description with the numbers removed), so that one defect
+// cannot fill the report and hide another one
+var violClasses = map[string]int{}
+var digitsRe = regexp.MustCompile(`[0-9]+`)
+
+func violate(out *hx.Out, desc string) {
+	k := digitsRe.ReplaceAllString(desc, "N")
+	if len(k) > 90 {
+		k = k[:90]
+	}
+	violClasses[k]++
+	if violClasses[k] <= 3 {
+		out.Violate(desc)
+	}
+}
+
+// malformed stream: inputs the dispatcher must reject before any method runs (no store may change, nobody's portfolio moves)
+func phaseMalformed(t *testing.T, e *env, rng *rand.Rand, out *hx.Out) {
+	app := e.s.App
+	victim := e.victim.Address()
+	warm := []common.Address{e.staking, e.cross}
+	spenders := []common.Address{e.x, e.y}
+	out.Reset()
+	for _, to := range []common.Address{e.staking, e.cross} {
+		ids := methodIds(to, e.staking)
+		valid, _ := hex.DecodeString(ids[rng.Intn(len(ids))])
+		junk := make([]byte, 36)
+		rng.Read(junk)
+		inputs := []struct {
+			name string
+			data []byte
+		}{
+			{"empty", nil}, {"short1", []byte{valid[0]}}, {"short3", valid[:3]}, {"exactly4", valid},
+			{"unknown-id", append([]byte{0xde, 0xad, 0xbe, 0xef}, junk[:32]...)}, {"unknown-id-long", append([]byte{0x00, 0x00, 0x00, 0x01}, junk...)},
+		}
+		for _, in := range inputs {
+			for _, kind := range []evmx.Kind{evmx.KCall, evmx.KStatic, evmx.KDelegate, evmx.KCallCode} {
+				cctx, _ := e.s.Ctx.CacheContext()
+				nd := &evmx.Node{Op: "pre", ID: 1, Kind: kind, To: to, Data: in.data, Swallow: true}
+				if err := evmx.InstallTree(cctx, app, e.x, []*evmx.Node{nd}); err != nil {
+					t.Fatal(err)
+				}
+				before := e.dump(cctx)
+				pv := e.portfolioOf(cctx, victim, spenders)
+				tx, err := evmx.SignedTx(cctx, app, e.signer, e.x, nil, nil, 3_000_000, warm)
+				if err != nil {
+					t.Fatal(err)
+				}
+				tr := evmx.NewTracer()
+				var res *evmtypes.MsgEthereumTxResponse
+				desc := fmt.Sprintf("malformed input %s (%d bytes) kind=%s precompile=%s", in.name, len(in.data), kind, to.Hex())
+				if pr := hx.Try(func() error { res, err = evmx.SendTraced(cctx, app, tx, tr); return nil }); pr != "ok" {
+					violate(out, "precompile call panicked ("+pr+"): "+desc)
+					continue
+				}
+				if err != nil || res.Failed() || len(tr.Frames) < 2 {
+					t.Fatalf("unexpected outer failure: %v %v", err, res)
+				}
+				obs := "ran"
+				if et := tr.Frames[1].Err; strings.Contains(et, "invalid input") || strings.Contains(et, "unknown method") {
+					obs = "unknown-method"
+				}
+				out.Emit(fmt.Sprintf("disp %s malformed:%s %s 0 %s -", kind, in.name, hx.Hex(in.data[:min(len(in.data), 4)]), to.Hex()), obs)
+				out.Count("malformed:" + in.name + ":" + obs)
+				out.Nontrivial("malformed|" + in.name + "|" + kind.String() + "|" + obs)
+				if changed := hx.DiffDump(before, e.dump(cctx)); len(changed) > 0 {
+					violate(out, "malformed precompile input changed Cosmos stores "+fmt.Sprint(changed)+": "+desc)
+				}
+				comparePortfolios(out, "third party", pv, e.portfolioOf(cctx, victim, spenders), nil, 0, false, desc)
+			}
+		}
+	}
+}
+
+func firstMatch(entries []string, addr common.Address, mid string) int {
+	for i := range entries {
+		if shouldBlock(entries[i:i+1], addr, mid) {
+			return i + 1
+		}
+	}
+	return 0
+}
+
+func allowanceClass(a, moved *big.Int) string {
+	switch {
+	case a.Cmp(maxU256) == 0:
+		return "2^256-1"
+	case a.Cmp(new(big.Int).Sub(maxU256, big.NewInt(1))) == 0:
+		return "2^256-2"
+	case moved != nil && a.Cmp(moved) == 0:
+		return "=amount"
+	case moved != nil && a.Cmp(moved) < 0:
+		return "<amount"
+	default:
+		return ">amount"
+	}
+}
+
+// ---------------------------------------------------------------------------------------------------------
+// phase 2: histories
+
+type acct struct {
+	id     int
+	addr   common.Address
+	signer *helpers.Signer // nil for contracts / passive accounts
+}
+
+type route struct {
+	name   string
+	caller int // account id of the direct caller of the precompile
+	origin int
+}
+
+func hStatus(errText string) string {
+	switch {
+	case errText == "":
+		return "ran:ok"
+	case strings.Contains(errText, "write protection"):
+		return "blocked:readonly"
+	case strings.Contains(errText, "is disabled"):
+		return "blocked:disabled"
+	case strings.Contains(errText, "exceeds allowance"):
+		return "ran:err:allowance"
+	case strings.Contains(errText, "insufficient shares"), strings.Contains(errText, "no delegation"):
+		return "ran:err:shares"
+	default:
+		return "ran:err"
+	}
+}
+
+func phaseHistory(t *testing.T, e *env, rng *rand.Rand, out *hx.Out) {
+	app := e.s.App
+	accts := []acct{{1, e.x, nil}, {2, e.y, nil}, {3, e.signer.Address(), e.signer}, {4, e.victim.Address(), e.victim}, {5, e.other, nil}}
+	byID := map[int]acct{}
+	var addrs []common.Address
+	for _, a := range accts {
+		byID[a.id] = a
+		addrs = append(addrs, a.addr)
+	}
+	idOfBech := map[string]int{}
+	for _, a := range accts {
+		idOfBech[sdk.AccAddress(a.addr.Bytes()).String()] = a.id
+	}
+	routes := []route{{"signer>x", 1, 3}, {"signer>x>y", 2, 3}, {"signer", 3, 3}, {"victim", 4, 4}, {"victim>x", 1, 4}, {"victim>x>y", 2, 4}}
+	warm := []common.Address{e.staking, e.cross}
+	sabi, cabi := fxstakingtypes.GetABI(), crosschaintypes.GetABI()
+	v0 := e.vals[0]
+	stakingMids := methodIds(e.staking, e.staking)
+	crossMids := methodIds(e.cross, e.staking)
+	e15 := big.NewInt(1e15)
+	seqs := hx.N(30, 240)
+	opsPer := hx.N(40, 60)
+	// corpus/C10/*.ops: witness histories (the `h …` lines of a replay file), each replayed first as its own sequence
+	var corpus [][]string
+	if dir := os.Getenv("VERIF_CORPUS"); dir != "" {
+		files, _ := filepath.Glob(filepath.Join(dir, "*.ops"))
+		sort.Strings(files)
+		for _, f := range files {
+			var hs []string
+			for _, l := range hx.ReadLines(f) {
+				if strings.HasPrefix(l, "h ") {
+					hs = append(hs, l)
+				}
+			}
+			if len(hs) > 0 {
+				corpus = append(corpus, hs)
+			}
+		}
+	}
+	if rp := hx.ReplayFile(); rp != "" {
+		var hs []string
+		for _, l := range hx.ReadLines(rp) {
+			if strings.HasPrefix(l, "h ") {
+				hs = append(hs, l)
+			}
+		}
+		if len(hs) > 0 {
+			corpus = append([][]string{hs}, corpus...)
+		}
+	}
+	out.Stats.Extra["corpus_sequences"] = len(corpus)
+	seqs += len(corpus)
+	for sq := 0; sq < seqs; sq++ {
+		cctx, _ := e.s.Ctx.CacheContext()
+		out.Reset()
+		for _, a := range accts {
+			out.Emit(fmt.Sprintf("set shares %d %s", a.id, e.sharesOf(cctx, a.addr)), "ok")
+			out.Emit(fmt.Sprintf("set bal %d %s", a.id, app.BankKeeper.GetBalance(cctx, a.addr.Bytes(), fxtypes.DefaultDenom).Amount), "ok")
+		}
+		var poolIDs []uint64
+		for _, tx := range app.EthKeeper.GetUnbatchedTransactions(cctx) {
+			if id, ok := idOfBech[tx.Sender]; ok {
+				out.Emit(fmt.Sprintf("set pool %d %d %s", tx.Id, id, tx.Token.Amount.Add(tx.Fee.Amount)), "ok")
+				poolIDs = append(poolIDs, tx.Id)
+			}
+		}
+		// ghost: approved amount and moved total per (owner, spender) since the last approval
+		type pair struct{ o, s int }
+		approved := map[pair]*big.Int{}
+		spent := map[pair]*big.Int{}
+		undelegations := map[int]int{}
+		var lastApproved *pair
+		nOps := opsPer
+		if sq < len(corpus) {
+			nOps = len(corpus[sq])
+		}
+		for k := 0; k < nOps; k++ {
+			rt := routes[rng.Intn(len(routes))]
+			caller := byID[rt.caller]
+			kind := evmx.KCall
+			if len(rt.name) > 6 && rng.Intn(7) == 0 { // contract routes only
+				kind = []evmx.Kind{evmx.KStatic, evmx.KDelegate, evmx.KCallCode}[rng.Intn(3)]
+			}
+			sharesOf := func(id int) *big.Int { return e.sharesOf(cctx, byID[id].addr) }
+			allowOf := func(o, s int) *big.Int { return e.allowance(cctx, byID[o].addr, byID[s].addr) }
+			pickAmt := func(cands ...*big.Int) *big.Int {
+				var ok []*big.Int
+				for _, c := range cands {
+					if c != nil && c.Sign() > 0 && c.Cmp(maxU256) <= 0 {
+						ok = append(ok, c)
+					}
+				}
+				if len(ok) == 0 {
+					return big.NewInt(1)
+				}
+				return ok[rng.Intn(len(ok))]
+			}
+			small := func() *big.Int { return new(big.Int).Mul(big.NewInt(int64(1+rng.Intn(40))), e15) }
+			plus := func(a *big.Int, d int64) *big.Int { return new(big.Int).Add(a, big.NewInt(d)) }
+			// choose the method
+			var method, argStr string
+			var data []byte
+			var value *big.Int
+			to := e.staking
+			var tfsFrom int
+			var tfsAmt *big.Int
+			var approveSp int
+			var approveAmt *big.Int
+			roll := rng.Intn(100)
+			var entries []string
+			scripted := sq < len(corpus)
+			if scripted {
+				// h <kind> <caller> <origin> <addr> <mid> <entries|-> <method> <args…>
+				f := strings.Fields(corpus[sq][k])
+				if len(f) < 8 {
+					t.Fatalf("corpus line: %q", corpus[sq][k])
+				}
+				kind = map[string]evmx.Kind{"call": evmx.KCall, "staticcall": evmx.KStatic, "delegatecall": evmx.KDelegate, "callcode": evmx.KCallCode}[f[1]]
+				found := false
+				for _, r := range routes {
+					if fmt.Sprint(r.caller) == f[2] && fmt.Sprint(r.origin) == f[3] {
+						rt, found = r, true
+					}
+				}
+				if !found {
+					t.Fatalf("corpus line: no route for caller %s origin %s", f[2], f[3])
+				}
+				caller = byID[rt.caller]
+				if f[6] != "-" {
+					entries = strings.Split(f[6], ",")
+				}
+				method = f[7]
+				args := f[8:]
+				num := func(i int) *big.Int {
+					if i >= len(args) {
+						t.Fatalf("corpus line: missing argument: %q", corpus[sq][k])
+					}
+					n, ok := new(big.Int).SetString(args[i], 10)
+					if !ok {
+						t.Fatalf("corpus line: bad number %q", args[i])
+					}
+					return n
+				}
+				acc := func(i int) int {
+					n := int(num(i).Int64())
+					if _, ok := byID[n]; !ok {
+						t.Fatalf("corpus line: bad account %d", n)
+					}
+					return n
+				}
+				argStr = strings.Join(args, " ")
+				switch method {
+				case "approveShares":
+					approveSp, approveAmt = acc(0), num(1)
+					data, _ = sabi.Pack(method, v0, byID[approveSp].addr, approveAmt)
+				case "transferFromShares":
+					tfsFrom, tfsAmt = acc(0), num(2)
+					data, _ = sabi.Pack(method, v0, byID[tfsFrom].addr, byID[acc(1)].addr, tfsAmt)
+				case "transferShares":
+					data, _ = sabi.Pack(method, v0, byID[acc(0)].addr, num(1))
+				case "delegateV2", "undelegateV2":
+					data, _ = sabi.Pack(method, v0, num(0))
+				case "withdraw":
+					data, _ = sabi.Pack(method, v0)
+				case "cancelSendToExternal":
+					to = e.cross
+					data, _ = cabi.Pack(method, ethtypes.ModuleName, num(0))
+				case "increaseBridgeFee":
+					to = e.cross
+					value = num(1)
+					data, _ = cabi.Pack(method, ethtypes.ModuleName, num(0), common.Address{}, value)
+				case "view":
+					if argStr == "allowanceShares" {
+						data, _ = sabi.Pack("allowanceShares", v0, byID[4].addr, byID[1].addr)
+					} else {
+						argStr = "delegation"
+						data, _ = sabi.Pack("delegation", v0, byID[4].addr)
+					}
+				default:
+					t.Fatalf("corpus line: unknown method %q", method)
+				}
+				roll = -1
+				out.Count("hist:corpus-op")
+			}
+			// after an approval, prefer the spender's transferFromShares for that pair
+			if !scripted && lastApproved != nil && rng.Intn(3) != 0 {
+				var cands []route
+				for _, r := range routes {
+					if r.caller == lastApproved.s {
+						cands = append(cands, r)
+					}
+				}
+				if len(cands) > 0 {
+					rt = cands[rng.Intn(len(cands))]
+					caller = byID[rt.caller]
+					if kind != evmx.KCall && len(rt.name) <= 6 {
+						kind = evmx.KCall
+					}
+					roll = 30
+				}
+			}
+			switch {
+			case roll < 0: // scripted
+			case roll < 25:
+				method = "approveShares"
+				approveSp = 1 + rng.Intn(5)
+				cs := sharesOf(caller.id)
+				approveAmt = []*big.Int{new(big.Int), big.NewInt(1), small(), cs, plus(cs, 1), maxU256, plus(maxU256, -1), new(big.Int).Lsh(big.NewInt(1), 255), maxU256, small()}[rng.Intn(10)]
+				data, _ = sabi.Pack(method, v0, byID[approveSp].addr, approveAmt)
+				argStr = fmt.Sprintf("%d %s", approveSp, approveAmt)
+				out.Count("hist:approve:" + allowanceClass(approveAmt, nil))
+			case roll < 62:
+				method = "transferFromShares"
+				// state-aware: mostly (owner, spender) pairs with a live allowance, the spender reached through one of its routes
+				type grant struct{ o, s int }
+				var grants []grant
+				for _, o := range accts {
+					for _, sp := range accts[:4] {
+						if allowOf(o.id, sp.id).Sign() > 0 {
+							grants = append(grants, grant{o.id, sp.id})
+						}
+					}
+				}
+				if lastApproved != nil && lastApproved.s == caller.id {
+					tfsFrom = lastApproved.o
+				} else if len(grants) > 0 && rng.Intn(6) != 0 {
+					g := grants[rng.Intn(len(grants))]
+					var cands []route
+					// mostly: the grantee itself is the direct caller; sometimes: the grantee is only the tx origin and a
+					// contract it called (which holds no grant) tries to use the grant on its behalf
+					onBehalf := rng.Intn(4) == 0
+					for _, r := range routes {
+						if (!onBehalf && r.caller == g.s) || (onBehalf && r.origin == g.s && r.caller != g.s) {
+							cands = append(cands, r)
+						}
+					}
+					if len(cands) == 0 {
+						cands = routes
+					}
+					if onBehalf {
+						out.Count("hist:tfs:contract-on-behalf-of-grantee")
+					}
+					rt = cands[rng.Intn(len(cands))]
+					caller = byID[rt.caller]
+					if len(rt.name) <= 6 {
+						kind = evmx.KCall
+					}
+					tfsFrom = g.o
+				} else {
+					tfsFrom = 1 + rng.Intn(5)
+				}
+				toID := 1 + rng.Intn(5)
+				al, sh := allowOf(tfsFrom, caller.id), sharesOf(tfsFrom)
+				lim := al
+				if sh.Cmp(lim) < 0 {
+					lim = sh
+				}
+				switch r := rng.Intn(20); {
+				case r < 9 && lim.Sign() > 0: // within both bounds
+					tfsAmt = pickAmt(big.NewInt(1), small(), small(), new(big.Int).Rsh(lim, 1), new(big.Int).Rsh(lim, 3), new(big.Int).Rsh(lim, 6))
+					if tfsAmt.Cmp(lim) > 0 {
+						tfsAmt = lim
+					}
+				case r < 12:
+					tfsAmt = pickAmt(lim, al, plus(al, -1))
+				default:
+					tfsAmt = pickAmt(big.NewInt(1), small(), plus(al, 1), sh, plus(sh, 1), plus(lim, 1))
+				}
+				data, _ = sabi.Pack(method, v0, byID[tfsFrom].addr, byID[toID].addr, tfsAmt)
+				argStr = fmt.Sprintf("%d %d %s", tfsFrom, toID, tfsAmt)
+				out.Count("hist:tfs:allowance-" + allowanceClass(al, tfsAmt))
+			case roll < 70:
+				method = "transferShares"
+				toID := 1 + rng.Intn(5)
+				sh := sharesOf(caller.id)
+				amt := pickAmt(big.NewInt(1), small(), small(), sh, plus(sh, 1), new(big.Int).Rsh(sh, 3))
+				data, _ = sabi.Pack(method, v0, byID[toID].addr, amt)
+				argStr = fmt.Sprintf("%d %s", toID, amt)
+			case roll < 75:
+				method = "delegateV2"
+				amt := small()
+				data, _ = sabi.Pack(method, v0, amt)
+				argStr = amt.String()
+			case roll < 79 && undelegations[caller.id] < 3 && kind == evmx.KCall:
+				method = "undelegateV2"
+				amt := small()
+				data, _ = sabi.Pack(method, v0, amt)
+				argStr = amt.String()
+				undelegations[caller.id]++
+			case roll < 83:
+				method = "withdraw"
+				data, _ = sabi.Pack(method, v0)
+			case roll < 91 && len(poolIDs) > 0:
+				method = "cancelSendToExternal"
+				to = e.cross
+				id := poolIDs[rng.Intn(len(poolIDs))]
+				if rng.Intn(8) == 0 {
+					id = 987654
+				}
+				data, _ = cabi.Pack(method, ethtypes.ModuleName, new(big.Int).SetUint64(id))
+				argStr = fmt.Sprint(id)
+			case roll < 96 && len(poolIDs) > 0:
+				method = "increaseBridgeFee"
+				to = e.cross
+				id := poolIDs[rng.Intn(len(poolIDs))]
+				fee := big.NewInt(int64(1 + rng.Intn(9)))
+				value = fee
+				data, _ = cabi.Pack(method, ethtypes.ModuleName, new(big.Int).SetUint64(id), common.Address{}, fee)
+				argStr = fmt.Sprintf("%d %s", id, fee)
+			default:
+				method = "view"
+				if rng.Intn(2) == 0 {
+					data, _ = sabi.Pack("allowanceShares", v0, byID[4].addr, byID[1].addr)
+					argStr = "allowanceShares"
+				} else {
+					data, _ = sabi.Pack("delegation", v0, byID[4].addr)
+					argStr = "delegation"
+				}
+			}
+			if data == nil {
+				t.Fatalf("pack %s failed", method)
+			}
+			lastApproved = nil
+			mid := hex.EncodeToString(data[:4])
+			// governance list: mostly none
+			if !scripted && rng.Intn(8) == 0 {
+				oa, om := e.cross, otherMids(stakingMids, mid)
+				if to == e.cross {
+					oa, om = e.staking, otherMids(crossMids, mid)
+				}
+				l := switchLists(rng, to, mid, oa, om, 3)
+				entries = l[1+rng.Intn(len(l)-1)].entries
+			}
+			if !e.setSwitch(t, cctx, entriesOrEmpty(entries)) {
+				entries = nil
+				e.setSwitch(t, cctx, []string{})
+			}
+			// build the transaction along the route
+			sender := byID[rt.origin].signer
+			var tx *evmtypes.MsgEthereumTx
+			var err error
+			preFrame := 1
+			switch rt.name {
+			case "signer", "victim":
+				tx, err = evmx.SignedTx(cctx, app, sender, to, value, data, 3_000_000, warm)
+				preFrame = 0
+			default:
+				nd := &evmx.Node{Op: "pre", ID: 2, Kind: kind, To: to, Data: data, Swallow: true}
+				if kind.HasValue() {
+					nd.Value = value
+				}
+				nodes := []*evmx.Node{nd}
+				if strings.HasSuffix(rt.name, ">y") {
+					nodes = []*evmx.Node{{Op: "call", ID: 1, Kind: evmx.KCall, To: e.y, Swallow: true, Body: []*evmx.Node{nd}}}
+					preFrame = 2
+				}
+				if err := evmx.InstallTree(cctx, app, e.x, nodes); err != nil {
+					t.Fatal(err)
+				}
+				tx, err = evmx.SignedTx(cctx, app, sender, e.x, nil, nil, 3_000_000, warm)
+			}
+			if err != nil {
+				t.Fatal(err)
+			}
+			// portfolios of everybody who is not the direct caller
+			before := map[int]portfolio{}
+			for _, a := range accts {
+				if a.id != caller.id {
+					before[a.id] = e.portfolioOf(cctx, a.addr, addrs)
+				}
+			}
+			dumpBefore := e.dump(cctx)
+			tr := evmx.NewTracer()
+			var res *evmtypes.MsgEthereumTxResponse
+			desc := fmt.Sprintf("method=%s(%s) kind=%s route=%s step=%d", method, argStr, kind, rt.name, k)
+			if pr := hx.Try(func() error { res, err = evmx.SendTraced(cctx, app, tx, tr); return nil }); pr != "ok" {
+				violate(out, "precompile call panicked ("+pr+"): "+desc)
+				break
+			}
+			if err != nil || len(tr.Frames) <= preFrame {
+				t.Fatalf("unexpected failure: %v frames=%d %s", err, len(tr.Frames), desc)
+			}
+			if preFrame > 0 && res.Failed() {
+				t.Fatalf("outer frame failed: %s %s", res.VmError, desc)
+			}
+			errText := tr.Frames[preFrame].Err
+			if preFrame == 0 && res.Failed() && errText == "" {
+				errText = res.VmError
+			}
+			status := hStatus(errText)
+			if method != "transferShares" && method != "transferFromShares" && strings.HasPrefix(status, "ran:err") {
+				status = "ran:err"
+			}
+			succeeded := status == "ran:ok"
+			// observation
+			var obs string
+			switch method {
+			case "approveShares":
+				obs = fmt.Sprintf("al=%s sa=%s sb=%s", allowOf(caller.id, approveSp), sharesOf(caller.id), sharesOf(approveSp))
+			case "transferShares":
+				var toID int
+				fmt.Sscan(argStr, &toID)
+				obs = fmt.Sprintf("al=%s sa=%s sb=%s", allowOf(caller.id, toID), sharesOf(caller.id), sharesOf(toID))
+			case "transferFromShares":
+				var f, toID int
+				fmt.Sscan(argStr, &f, &toID)
+				obs = fmt.Sprintf("al=%s sa=%s sb=%s", allowOf(f, caller.id), sharesOf(f), sharesOf(toID))
+			case "delegateV2", "undelegateV2", "withdraw":
+				obs = fmt.Sprintf("sa=%s", sharesOf(caller.id))
+			case "cancelSendToExternal", "increaseBridgeFee":
+				var parts []string
+				txs := app.EthKeeper.GetUnbatchedTransactions(cctx)
+				sort.Slice(txs, func(i, j int) bool { return txs[i].Id < txs[j].Id })
+				for _, p := range txs {
+					if id, ok := idOfBech[p.Sender]; ok {
+						parts = append(parts, fmt.Sprintf("%d:%d:%s", p.Id, id, p.Token.Amount.Add(p.Fee.Amount)))
+					}
+				}
+				obs = "pool=" + strings.Join(parts, ",")
+				if len(parts) == 0 {
+					obs = "pool=-"
+				}
+			default:
+				obs = "-"
+			}
+			out.Emit(fmt.Sprintf("h %s %d %d %s %s %s %s %s", kind, rt.caller, rt.origin, to.Hex(), mid, entStr(entries), method, argStr), status+" "+obs)
+			out.Count("hist:" + method + ":" + status)
+			out.Count("hist:route:" + rt.name + ":" + kind.String())
+			out.Nontrivial(fmt.Sprintf("h|%s|%s|%s|%s|%v", method, rt.name, kind, status, len(entries) > 0))
+			// monitors
+			changed := hx.DiffDump(dumpBefore, e.dump(cctx))
+			if strings.HasPrefix(status, "blocked") && len(changed) > 0 {
+				violate(out, "blocked precompile call changed Cosmos stores "+fmt.Sprint(changed)+" "+desc)
+			}
+			if shouldBlock(entries, to, mid) && !strings.HasPrefix(status, "blocked") {
+				violate(out, fmt.Sprintf("disabled precompile executed: %s entries=%s (%d entries, the matching one is number %d)", desc, entStr(entries), len(entries), firstMatch(entries, to, mid)))
+			}
+			if kind != evmx.KCall && method != "view" && len(changed) > 0 {
+				violate(out, "state-changing method changed state through "+kind.String()+": "+desc)
+			}
+			for _, a := range accts {
+				if a.id == caller.id {
+					continue
+				}
+				var mv *big.Int
+				if method == "transferFromShares" && tfsFrom == a.id {
+					mv = tfsAmt
+				}
+				who := fmt.Sprintf("account %d", a.id)
+				if a.id == rt.origin {
+					who += ", the tx origin"
+				}
+				comparePortfolios(out, who, before[a.id], e.portfolioOf(cctx, a.addr, addrs), mv, caller.id-1, succeeded, desc)
+			}
+			// history ghost: approved - Σ moved = allowance now
+			if succeeded && method == "approveShares" {
+				p := pair{caller.id, approveSp}
+				approved[p] = approveAmt
+				spent[p] = new(big.Int)
+				lastApproved = &p
+			}
+			if succeeded && method == "transferFromShares" {
+				p := pair{tfsFrom, caller.id}
+				if _, ok := approved[p]; ok {
+					spent[p].Add(spent[p], tfsAmt)
+					if rng.Intn(2) == 0 {
+						lastApproved = &p // keep draining the same grant
+					}
+				}
+			}
+			for p, ap := range approved {
+				want := new(big.Int).Sub(ap, spent[p])
+				if got := allowOf(p.o, p.s); got.Cmp(want) != 0 {
+					violate(out, fmt.Sprintf("allowance granted by account %d to %d not reduced by exactly the amount moved over the history: approved %s, moved since %s, allowance now %s (expected %s); last step %s", p.o, p.s, ap, spent[p], got, want, desc))
+					delete(approved, p)
+				}
+			}
+			_ = poolIDs
+		}
+	}
+}
+
+func entriesOrEmpty(e []string) []string {
+	if e == nil {
+		return []string{}
+	}
+	return e
+}
+
+func TestC10(t *testing.T) {
+	rng := rand.New(rand.NewSource(hx.Seed()))
+	out := hx.NewOut()
+	defer out.Close("dispatch: every method of both precompiles (13 state-changing incl. third-party / tx-origin argument variants, 4 views) x CALL/STATICCALL/DELEGATECALL/CALLCODE x governance switch lists set through the real MsgUpdateSwitchParams handler (none, single entries in every letter case, near misses, 2..7 entries with several entries for one precompile address and the matching one at any position) x allowance 0 / amount-1 / amount / amount+1 / large / 2^256-2 / 2^256-1; nested STATICCALL->CALL. histories: sequences of real signed transactions by EOAs directly, contracts, contracts acting for the user that called them (one and two frames deep): approveShares (boundary amounts incl. 2^256-1) / repeated transferFromShares / transferShares / delegate / undelegate / withdraw / cancelSendToExternal / increaseBridgeFee / views, under random call kinds and switch lists; model and real allowance, shares and pool compared after every step; portfolios of every non-caller (tx origin included) before/after. non-trivial = distinct (method, kind/route, switch class, outcome)")
+	e := setup(t)
+	only := os.Getenv("VERIF_C10_PHASE") // debugging aid: "dispatch" or "history" runs one phase only
+	if only != "history" {
+		phaseDispatch(t, e, rng, out)
+		phaseMalformed(t, e, rng, out)
+	}
+	if only != "dispatch" {
+		phaseHistory(t, e, rng, out)
 	}
 }
